@@ -4,6 +4,7 @@ import ChiModel.Reduced
 import ChiModel.Labels
 import ChiModel.ReducedResize
 import ChiModel.TopLevel
+import ChiModel.PosteriorS1
 import ChiProofs.Props.C02
 import ChiProofs.Props.C08
 import ChiProofs.Props.C07
@@ -596,3 +597,125 @@ theorem C17_selection_raw_count_counterexample :
   decide
 
 end ChiModel.TopLevel
+
+/-! ## the posteriors' `evaluateS1`: the gradient's length where the score is `-inf` -/
+
+namespace ChiModel
+namespace PosteriorS1
+variable {α : Type} [Add α]
+
+theorem iadd_length (a b r : List α) (h : iadd a b = .ok r) : r.length = a.length := by
+  unfold iadd at h
+  split at h
+  · rename_i hl
+    cases h
+    simp [hl]
+  · split at h
+    · cases h; simp
+    · cases h
+
+theorem iaddFrom_length (off : Nat) (a b r : List α) (h : iaddFrom off a b = .ok r) : r.length = a.length := by
+  unfold iaddFrom at h
+  split at h
+  · rename_i t ht
+    cases h
+    have := iadd_length _ _ _ ht
+    simp [this]
+    omega
+  · cases h
+
+theorem assignHead_length (k : Nat) (a b r : List α) (h : assignHead k a b = .ok r) : r.length = a.length := by
+  unfold assignHead at h
+  simp only at h
+  split at h
+  · rename_i hl
+    cases h
+    simp only [List.length_append, List.length_drop, hl]
+    omega
+  · split at h
+    · cases h
+      simp only [List.length_append, List.length_replicate, List.length_drop]
+      omega
+    · cases h
+
+end PosteriorS1
+open PosteriorS1
+
+/-- C17 (gradient length at every point, `LogPosterior`): the prior is defined on all `n` parameters; whether it
+    excludes the point (early exit with the prior's own sensitivities) or not (sum with the likelihood's
+    gradient), whatever the likelihood's score — also `-inf` from an error-model guard —, the gradient handed
+    back has `n` entries. -/
+theorem C17_posterior_grad_length {α : Type} [Add α] (n : Nat) (prior : S1 α) (ll : Unit → S1 α) (r : S1 α)
+    (hp : prior.grad.length = n) (h : plain prior ll = .ok r) : r.grad.length = n := by
+  unfold plain at h
+  split at h
+  · cases h; exact hp
+  · simp only at h
+    split at h
+    · rename_i g hg
+      cases h
+      simpa [hp] using iadd_length _ _ _ hg
+    · cases h
+
+/-- C17 (gradient length at every point, `HierarchicalLogPosterior`): for every split of the vector into
+    individual-level and top-level entries, every prior on the top-level entries (whatever the length of ITS
+    sensitivities) and every likelihood result of full length — whatever its score, also `-inf` from the
+    population model or an error model —, the gradient handed back has as many entries as the vector. -/
+theorem C17_hier_posterior_grad_length {α : Type} [Add α] (inf : α) (nBottom : Nat) (parameters : List α)
+    (prior : S1 α) (ll : Unit → S1 α) (r : S1 α)
+    (hl : (ll ()).grad.length = parameters.length)
+    (h : hierarchical inf nBottom parameters prior ll = .ok r) : r.grad.length = parameters.length := by
+  unfold hierarchical at h
+  split at h
+  · cases h; simp
+  · simp only at h
+    split at h
+    · rename_i g hg
+      cases h
+      simpa [hl] using iaddFrom_length _ _ _ _ hg
+    · cases h
+
+/-- C17 (why the early exit cannot hand back the prior's sensitivities): where the prior excludes the point,
+    the variant that returns the prior's own sensitivities (as `LogPosterior` rightly does) has a gradient of
+    the reported length `n_bottom + n_top` exactly when there are no individual-level entries. -/
+theorem C17_hier_prior_sens_iff {α : Type} [Add α] (nBottom nTop : Nat) (prior : S1 α) (ll : Unit → S1 α)
+    (hinf : isInf prior.score = true) (hp : prior.grad.length = nTop) :
+    (∃ r, hierarchicalPriorSens nBottom prior ll = .ok r ∧ r.grad.length = nBottom + nTop) ↔ nBottom = 0 := by
+  unfold hierarchicalPriorSens
+  simp only [hinf, if_true]
+  constructor
+  · rintro ⟨r, hr, hlen⟩
+    cases hr
+    omega
+  · intro h0
+    exact ⟨prior, rfl, by omega⟩
+
+/-- C17 (witness): two individual-level entries and one top-level entry, a prior that excludes the point —
+    handing back the prior's own sensitivities gives a gradient with 1 entry for 3 parameters. -/
+theorem C17_hier_prior_sens_counterexample :
+    ∃ r : S1 Nat, hierarchicalPriorSens 2 ⟨.negInf, [0]⟩ (fun _ => ⟨.val 0, [0, 0, 0]⟩) = .ok r ∧
+      r.grad.length = 1 ∧ r.grad.length ≠ 2 + 1 :=
+  ⟨_, rfl, rfl, by decide⟩
+
+/-- C17 (gradient length at every point, `PopulationFilterLogPosterior`): the buffer of `n_parameters` entries
+    is what is handed back at the early exit (prior excludes the point) and — given that the remaining
+    computation returns a buffer-length gradient — everywhere else. -/
+theorem C17_filter_posterior_grad_length {α : Type} [Add α] (nTop : Nat) (buffer : List α) (prior : S1 α)
+    (rest : List α → S1 α) (r : S1 α)
+    (hrest : ∀ b, b.length = buffer.length → (rest b).grad.length = buffer.length)
+    (h : filter nTop buffer prior rest = .ok r) : r.grad.length = buffer.length := by
+  unfold filter at h
+  split at h
+  · cases h
+  · rename_i b hb
+    have hbl := assignHead_length _ _ _ _ hb
+    split at h
+    · cases h; exact hbl
+    · cases h; exact hrest b hbl
+
+example : (hierarchical (α := Nat) 99 2 [1, 1, 1] ⟨.negInf, [7]⟩ (fun _ => ⟨.val 0, [0, 0, 0]⟩)).toOption.map (·.grad)
+    = some [99, 99, 99] := by decide
+example : (hierarchical (α := Nat) 99 2 [1, 1, 1] ⟨.val 1, [7]⟩ (fun _ => ⟨.val 0, [1, 2, 3]⟩)).toOption.map (·.grad)
+    = some [1, 2, 10] := by decide
+
+end ChiModel
